@@ -118,6 +118,38 @@ M = [
   """        S_ = 0, A_ = 0, O_ = 0;
         discount_""", """        discount_""", """        initMap_["values"] = [](const std::string &){};""", """        S_ = 0, A_ = 0, O_ = 0;
         initMap_["values"] = [](const std::string &){};"""),
+
+ ('P1 (round 3) parseIndeces tries the number reading first and consults the name table only when stoul throws', F,
+  """            if (auto it = map.find(str); it != std::end(map)) {
+                retval.push_back(it->second);
+            } else {
+                const size_t val = std::stoul(str);
+                if (val >= max) throw std::runtime_error("Input value too high");
+                retval.push_back(val);
+            }""",
+  """            bool isNum = true; size_t val = 0;
+            try { val = std::stoul(str); } catch (...) { isNum = false; }
+            if (isNum) {
+                if (val >= max) throw std::runtime_error("Input value too high");
+                retval.push_back(val);
+            } else {
+                retval.push_back(map.at(str));
+            }"""),
+ ('P2 (round 3, indirect: Utils/Probability.hpp) isProbability drops the sign test', 'include/AIToolbox/Utils/Probability.hpp',
+  """            if (value < 0.0) return false;
+            p += value;""", """            p += value;"""),
+ ('P3 (round 3) parsePOMDP checks only the S*A*S extent', F,
+  """        checkExtent(S, A, S);
+        checkExtent(S, A, O);""", """        checkExtent(S, A, S);"""),
+ ('P4 (round 3, indirect: Utils/Probability.hpp) 3D isProbability skips the last slice', 'include/AIToolbox/Utils/Probability.hpp',
+  """        for (size_t d = 0; d < depth; ++d)""", """        for (size_t d = 0; d + 1 < depth; ++d)"""),
+ ('P5 (round 3, indirect: POMDP/Model.hpp) setObservationFunction copies O columns but only min(S,O) are meaningful (index swap o<->s1 guard)', 'include/AIToolbox/POMDP/Model.hpp',
+  """                    observations_[a](s1, o) = of[s1][a][o];""", """                    observations_[a](s1, o) = of[s1][a][O - 1 - o];"""),
+ ('P6 (round 3) the wildcard test accepts any token starting with `*`... and index tokens are compared by prefix: names that are prefixes of each other', F,
+  """            if (auto it = map.find(str); it != std::end(map)) {""",
+  """            if (auto it = std::find_if(std::begin(map), std::end(map), [&](const auto & kv) { return boost::starts_with(kv.first, str); }); it != std::end(map)) {"""),
+ ('P7 (round 3) negative values lose their sign in the single-entry reward form', F,
+  """                const auto val = std::stod(tokens.at(5));""", """                const auto val = std::fabs(std::stod(tokens.at(5)));"""),
 ]
 sel = sys.argv[1:]
 for entry in M:
